@@ -43,14 +43,27 @@ func schedRows() []schedRow {
 
 // isConditionOf reports whether v is <stage>.Condition for the loop's stage.
 func isStageField(v ssa.Value, field string, st *an.State, stage ssa.Value) bool {
-	ap := an.AccessPath(v)
-	if ap.LastField() != field || len(ap.Fields) != 1 {
-		return false
-	}
+	cands := []ssa.Value{v}
 	if st != nil {
-		return st.SameRoot(ap.Base, stage)
+		// a helper's parameter stands for what the caller passed on this path
+		cands = append(cands, st.RootChain(v)...)
 	}
-	return an.SameValue(ap.Base, stage)
+	for _, cv := range cands {
+		ap := an.AccessPath(cv)
+		if ap.LastField() != field || len(ap.Fields) != 1 {
+			continue
+		}
+		if st != nil {
+			if st.SameRoot(ap.Base, stage) {
+				return true
+			}
+			continue
+		}
+		if an.SameValue(ap.Base, stage) {
+			return true
+		}
+	}
+	return false
 }
 
 func traceSchedule(c *an.Ctx, s *sched, row schedRow) []schedPath {
@@ -243,6 +256,7 @@ func getSchedTable(c *an.Ctx, s *sched) *schedTable {
 //	           Add, then Waiting→Running on that stage, then the go statement with that stage bound
 //	condition: the condition rows (C02.3)
 //	writes:    no status write and no Cancel in rows where they do not belong (C02.5 / C02.6)
+//	skip:      a stage whose condition is false is settled (Skipped) in the pass, before the dependency gate (C04.5)
 func checkSchedTable(c *an.Ctx, s *sched, rule string, want map[string]bool) {
 	t := getSchedTable(c, s)
 	key := func(x string) string { return an.Short(s.loopFn) + ":" + x }
@@ -342,6 +356,23 @@ func checkSchedTable(c *an.Ctx, s *sched, rule string, want map[string]bool) {
 					if joined != "write(stage,Error);Cancel()" && joined != "Cancel();write(stage,Error)" {
 						note("a condition that cannot be evaluated must mark the stage Error and cancel the run, got [%s]", joined)
 					}
+				}
+			}
+			if want["skip"] && row.waiting && row.cond == "exit" {
+				// what the pass does with a stage whose condition is false, up to the dependency gate
+				var eff []string
+				for _, e := range ev {
+					if e == "cond.eval" {
+						continue
+					}
+					if strings.HasPrefix(e, "gate(") {
+						eff = append(eff, "gate")
+						break
+					}
+					eff = append(eff, e)
+				}
+				if joined := strings.Join(eff, ";"); joined != "write(stage,Skipped)" {
+					note("a stage whose condition is false is not marked Skipped by the pass that looks at it, before and whatever its dependency gate says (got [%s]): its dependents, whose dependencies are then all satisfied, are held back until unrelated stages finish", joined)
 				}
 			}
 			if want["writes"] {
